@@ -80,6 +80,36 @@ Theorem C18_poly_fan_reference :
     = Some 1.
 Proof. repeat split; [apply poly_fan_ref_pyr | apply poly_fan_ref_prism | apply poly_fan_ref_hex]. Qed.
 
+(* ---- origin of the fans: the translated face lists are closed, so the polyhedron
+   volume (both modes) does not change when the first node of the first face is
+   subtracted from every point (gen Kernels.polyhedron_local_origin records whether
+   the numba cores do so); all coordinates *)
+Theorem C18_poly_volume_origin_independent :
+  (forall p0 p1 p2 p3, let fs := select_faces [p0;p1;p2;p3] poly_faces_tet in
+     option_map (fun f => polyhedron_vol_fan ROps (shift_faces_if ROps true f)) fs
+       = option_map (polyhedron_vol_fan ROps) fs /\
+     option_map (fun f => polyhedron_vol_centroid ROps (shift_faces_if ROps true f)) fs
+       = option_map (polyhedron_vol_centroid ROps) fs) /\
+  (forall p0 p1 p2 p3 p4, let fs := select_faces [p0;p1;p2;p3;p4] poly_faces_pyr in
+     option_map (fun f => polyhedron_vol_fan ROps (shift_faces_if ROps true f)) fs
+       = option_map (polyhedron_vol_fan ROps) fs /\
+     option_map (fun f => polyhedron_vol_centroid ROps (shift_faces_if ROps true f)) fs
+       = option_map (polyhedron_vol_centroid ROps) fs) /\
+  (forall p0 p1 p2 p3 p4 p5, let fs := select_faces [p0;p1;p2;p3;p4;p5] poly_faces_prism in
+     option_map (fun f => polyhedron_vol_fan ROps (shift_faces_if ROps true f)) fs
+       = option_map (polyhedron_vol_fan ROps) fs /\
+     option_map (fun f => polyhedron_vol_centroid ROps (shift_faces_if ROps true f)) fs
+       = option_map (polyhedron_vol_centroid ROps) fs) /\
+  (forall p0 p1 p2 p3 p4 p5 p6 p7, let fs := select_faces [p0;p1;p2;p3;p4;p5;p6;p7] poly_faces_hex in
+     option_map (fun f => polyhedron_vol_fan ROps (shift_faces_if ROps true f)) fs
+       = option_map (polyhedron_vol_fan ROps) fs /\
+     option_map (fun f => polyhedron_vol_centroid ROps (shift_faces_if ROps true f)) fs
+       = option_map (polyhedron_vol_centroid ROps) fs).
+Proof.
+  split; [exact poly_shift_tet |]. split; [exact poly_shift_pyr |].
+  split; [exact poly_shift_prism | exact poly_shift_hex].
+Qed.
+
 (* ---- id -> storage position inside the kernels.  For every list of distinct
    node ids in any storage order, argsort[searchsorted(sorted ids, x)] is the
    storage position of x; the sorted rank alone is not (two-node witness).
